@@ -1548,6 +1548,10 @@ func (s *ImmuStore) fetchVLog(vLogID byte) (appendable.Appendable, error) {
 		return s.vLogs[0].vLog, nil
 	}
 
+	if vLogID == 0 || int(vLogID) > len(s.vLogs) {
+		return nil, fmt.Errorf("%w: invalid vLogID %d", ErrCorruptedData, vLogID)
+	}
+
 	s.vLogsCond.L.Lock()
 	defer s.vLogsCond.L.Unlock()
 
